@@ -1,9 +1,9 @@
 (* extraction of the RangeTask model (C14) — ExtrOcamlBasic only *)
 Require Extraction.
 Require Import ExtrOcamlBasic.
-From Verif Require Import Base.Lex RangeTask.Model RangeTask.ModelView.
+From Verif Require Import Base.Lex RangeTask.Model RangeTask.ModelView RangeTask.ModelLayout.
 Extraction Language OCaml.
 Extraction "rangetask_model.ml"
   Z.of_N Lex.lex_cmp run_on_range task_ok batch_end_of locate nth_next
-  gc_resolve_range gc_resolve_range_v typed_view untyped_view gc_step wf_storeb primaries_okb check_all_secondaries check_all_secondaries_f gc_safe_point markers late_prewrite_accepted collect_v committed_at resolve_all read_at batch_resolve scan
+  gc_resolve_range gc_resolve_range_l gc_resolve_range_v typed_view untyped_view gc_step wf_storeb primaries_okb check_all_secondaries check_all_secondaries_f gc_safe_point markers late_prewrite_accepted collect_v committed_at resolve_all read_at batch_resolve scan
   delete_range_task delete_range check_visibility snapshot_read run_read.
